@@ -39,9 +39,49 @@ class Gen:
         return self.now
 
 
+def flushburst_case(r):
+    """C09: one client, a server that buffers little (max_receive_alloc of one to a few fragments), a burst of
+    Reliable packets of uneven sizes that exceeds it several times over, then a flushing disconnect() from the
+    client; light or no loss; afterwards enough quiet steps for every retry budget."""
+    g = Gen(r)
+    smra = r.choice([1448, 1448, 3000, 5000, 10000])
+    scfg = "2000000 2000000 %d %d %d 5000 20000" % (min(smra, r.choice([1448, 5000])), smra, r.randrange(2))
+    g.ops.append("srvnew 4096 32 %d %s 0" % (r.randrange(2), scfg))
+    g.ops.append("peer 0")
+    g.nonce()
+    cmps = r.choice([1448, 5000])
+    g.ops.append("clinew 0 0 2000000 2000000 %d 100000 %d 5000 20000 0" % (cmps, r.randrange(2)))
+    drop = r.choice([0, 0, 0, 100, 300])
+    sent = False
+    burst_at = r.choice([3, 4, 6])
+    for t in range(r.choice([20, 40])):
+        now = g.tick((10, 50, 100, 500))
+        if t == burst_at:
+            for _ in range(r.choice([4, 6, 10])):
+                ln = min(smra, cmps, r.choice([1, 100, 700, 700, F - 1, F, F + 1, 2 * F + 100, 3000]))
+                g.ops.append("clisend 0 %d 3 %d %d" % (r.randrange(4), ln, g.k)); g.k += 1
+            if r.random() < 0.5:
+                g.ops.append("clisend 0 %d 3 0 %d" % (r.randrange(4), g.k)); g.k += 1
+            g.ops.append("clidisc 0 0")
+        g.ops.append("clistep 0 %d" % now)
+        g.ops.append("pfwd 0 %d 0 %d" % (drop, r.randrange(2 ** 31)))
+        g.nonce()
+        g.ops.append("srvstep %d" % now)
+        g.ops.append("pfwd 0 %d 0 %d" % (drop, r.randrange(2 ** 31)))
+    for t in range(14):
+        now = g.tick((2000, 2100, 5000))
+        g.ops.append("clistep 0 %d" % now)
+        g.ops.append("pfwd 0 0 0 1")
+        g.ops.append("srvstep %d" % now)
+        g.ops.append("pfwd 0 0 0 1")
+    return g.ops
+
+
 def lifecycle_case(r, max_clients=3):
     """A server and 1-3 real clients behind relay peers: handshake under loss, data both ways, disconnects from
     either side (flush / now), drops, timeouts, all API calls at any point."""
+    if r.random() < 0.25:
+        return flushburst_case(r)
     g = Gen(r)
     scfg, sinfo = ec(r)
     g.ops.append("srvnew %d %d %d %s 0" % (r.choice([4096, 4, 2]), r.choice([32, 2, 1]), r.randrange(2), scfg))
@@ -66,8 +106,14 @@ def lifecycle_case(r, max_clients=3):
             a = r.random()
             if a < 0.25:
                 g.ops.append("clisend %d %d %d %d %d" % (j, r.randrange(64), r.randrange(4), pick_len(r, ccfg[j]["mps"]), g.k)); g.k += 1
-            elif a < 0.30:
-                mode = r.randrange(2)
+            elif a < 0.32:
+                mode = r.choice([0, 0, 1])
+                if mode == 0 and r.random() < 0.8:
+                    # a burst of Reliable packets that together exceed what the server is willing to buffer
+                    # (max_receive_alloc): the sender has to wait for window space, the disconnect for the sender
+                    lim = min(ccfg[j]["mps"], sinfo["mra"])
+                    for _ in range(r.choice([3, 5, 8])):
+                        g.ops.append("clisend %d %d 3 %d %d" % (j, r.randrange(4), min(lim, r.choice([100, 700, F, F + 1, 2 * F + 100, 3000])), g.k)); g.k += 1
                 if mode == 0 and r.random() < 0.5:
                     # the last things queued before a flushing disconnect: empty Reliable packets (end-of-stream
                     # markers), which weigh nothing in the send buffer but must still be delivered first
